@@ -363,4 +363,88 @@ def finalWorld (cron : Cron) : World → List Step → World
   | w, [] => w
   | w, s :: ss => finalWorld cron (step cron w s).1 ss
 
+/-! ### The orchestration queue, the in-memory deletion mark and the informer
+
+"Being deleted" lives in several places for one node:
+
+* `mark` — `StateNode.markedForDeletion`: set by `Queue.StartCommand` → `cluster.MarkForDeletion`, cleared by
+  `Queue.CompleteCommand` → `cluster.UnmarkForDeletion` under the guard regenerated as
+  `BudgetFacts.completeUnmarkGuard`, carried over by every `UpdateNodeClaim` / `UpdateNode` of the cluster state;
+* `api` — the NodeClaim in the API server has a deletionTimestamp (`Queue.waitOrTerminate` deleted it);
+* `seen` — the cluster state's copy of the NodeClaim has it (the informer has delivered the update);
+* `inFlight` — a command holding the node is in the orchestration queue (`ProviderIDToCommand`).
+
+`StateNode.MarkedForDeletion()` — what `BuildDisruptionBudgetMapping` counts — is `mark || seen`
+(`markedForDeletion || Deleted()`); an outside observer sees `inFlight || api`.  The informer may lag behind the API
+server for arbitrarily long: `sync` is a step of its own. -/
+
+structure Track where
+  name     : String
+  mark     : Bool
+  seen     : Bool
+  api      : Bool
+  inFlight : Bool
+deriving Repr, DecidableEq
+
+def Track.fresh (name : String) : Track := { name := name, mark := false, seen := false, api := false, inFlight := false }
+
+/-- `StateNode.MarkedForDeletion()` (up to `InstanceTerminating`, which removes the node from the counted set) -/
+def Track.stateMarked (t : Track) : Bool := t.mark || t.seen
+
+/-- what an observer of the queue and the API server calls "being deleted" -/
+def Track.beingDeleted (t : Track) : Bool := t.inFlight || t.api
+
+inductive QStep
+  /-- `Queue.StartCommand(cmd)`: `MarkForDeletion(candidates)`, `ProviderIDToCommand[c] = cmd` -/
+  | start (names : List String)
+  /-- `Queue.Reconcile`: `waitOrTerminate` deleted the candidates' NodeClaims (`succeeded`) or failed for good
+      (timeout, replacement gone: nothing was deleted), then `CompleteCommand` -/
+  | finish (names : List String) (succeeded : Bool)
+  /-- the NodeClaim informer delivers the API state of these nodes to the cluster state (`UpdateNodeClaim`) -/
+  | sync (names : List String)
+  /-- a node the model has not seen yet registers (a replacement) -/
+  | appear (name : String)
+deriving Repr
+
+def onNames (names : List String) (f : Track → Track) (ts : List Track) : List Track :=
+  ts.map (fun t => if names.contains t.name then f t else t)
+
+/-- does `CompleteCommand` clear the mark of a command with this outcome?  `unmarkSucceeded` = the guard lets
+    succeeded commands through as well -/
+def completeUnmarks (unmarkSucceeded : Bool) (succeeded : Bool) : Bool := !succeeded || unmarkSucceeded
+
+def qstep (unmarkSucceeded : Bool) (ts : List Track) : QStep → List Track
+  | .start names => onNames names (fun t => { t with mark := true, inFlight := true }) ts
+  | .finish names ok =>
+    onNames names (fun t => { t with api := t.api || ok, mark := t.mark && !completeUnmarks unmarkSucceeded ok, inFlight := false }) ts
+  | .sync names => onNames names (fun t => { t with seen := t.api }) ts
+  | .appear name => if ts.any (fun t => t.name == name) then ts else ts ++ [Track.fresh name]
+
+/-- the queue as it is in the source: the guard of `UnmarkForDeletion` is a regenerated fact -/
+def qstepCode : List Track → QStep → List Track := qstep Karp.Gen.BudgetFacts.completeUnmarksSucceeded
+
+def qrun (unmarkSucceeded : Bool) (ts : List Track) (steps : List QStep) : List Track := steps.foldl (qstep unmarkSucceeded) ts
+
+/-- what the callers guarantee: a command is started on nodes that are neither marked for deletion
+    (`ValidateNodeDisruptable` rejects them as candidates) nor held by another command (`HasAny`); only commands that
+    are in the queue finish -/
+def QStep.pre (ts : List Track) : QStep → Bool
+  | .start names => ts.all (fun t => !names.contains t.name || (!t.stateMarked && !t.inFlight))
+  | .finish names _ => ts.all (fun t => !names.contains t.name || t.inFlight)
+  | .sync _ => true
+  | .appear _ => true
+
+def qrunOK (unmarkSucceeded : Bool) : List Track → List QStep → Bool
+  | _, [] => true
+  | ts, s :: ss => s.pre ts && qrunOK unmarkSucceeded (qstep unmarkSucceeded ts s) ss
+
+/-- the invariant of the life cycle: an in-flight node carries the mark; a node whose NodeClaim the queue deleted
+    carries the mark or the cluster state has seen the deletionTimestamp; an in-flight node is not deleted yet -/
+def Track.inv (t : Track) : Bool :=
+  (!t.inFlight || t.mark) && (!t.api || t.mark || t.seen) && (!t.inFlight || !t.api)
+
+/-- a node as the cluster state (`view = stateMarked`) or an observer (`view = beingDeleted`) sees it -/
+def Node.withTrack (view : Track → Bool) (ts : List Track) (n : Node) : Node :=
+  { n with marked := n.marked || ts.any (fun t => t.name == n.name && view t) }
+
 end Karp.Budget
